@@ -256,6 +256,42 @@ def run(ctx):
                 ctx.violation('box_volume_sample(no=%s) in the middle of a session is not %d distinct points inside the box' % (no, no[0] * no[1] * no[2]),
                               rec, {'fn': 'box_volume_sample', 'what': 'session'})
                 break
+    # ---------------- ray bundles between two small point sets that lie FAR from the origin of the coordinate system compared with their separation (an
+    # aperture of 10 mm and a detector 5 mm behind it, 1 m from the origin), also with more than 25 / 32 points per set: the cosines are unit length and the
+    # ray reaches its end point, to the accuracy the float32 coordinates allow (about (distance / separation) * eps)
+    for (m_, n_, ratio) in ((4, 5, 100.0), (36, 64, 200.0), (30, 3, 1000.0), (3, 40, 50.0)):
+        sep = 5.0
+        base = np.array([rng.gauss(0, 1) for _ in range(3)])
+        base = ratio * sep * base / np.linalg.norm(base)
+        starts = base + np.array([[rng.uniform(-5, 5), rng.uniform(-5, 5), 0.0] for _ in range(m_)])
+        ends = base + np.array([[rng.uniform(-5, 5), rng.uniform(-5, 5), sep] for _ in range(n_)])
+        ts, te = torch.tensor(starts, dtype=torch.float32), torch.tensor(ends, dtype=torch.float32)
+        rec = {'kind': 'far_from_origin', 'starts': m_, 'ends': n_, 'distance_over_separation': ratio}
+        ctx.case(('far_from_origin', m_, n_, ratio), True)
+        ctx.count('far_from_origin/%dx%d pairs' % (m_, n_))
+        rays = LR.create_ray_from_all_pairs(ts, te).double().numpy().reshape(-1, 2, 3)
+        s64, e64 = ts.double().numpy(), te.double().numpy()
+        want_d = (e64[None, :, :] - s64[:, None, :]).reshape(-1, 3)
+        dist = np.linalg.norm(want_d, axis=1, keepdims=True)
+        want_d = want_d / dist
+        tol_u = 60 * ratio * 6e-8 + 1e-6
+        unit_err = float(np.max(np.abs(np.linalg.norm(rays[:, 1], axis=1) - 1)))
+        dir_err = float(np.max(np.abs(rays[:, 1] - want_d)))
+        if rays.shape[0] != m_ * n_ or unit_err > tol_u or dir_err > tol_u:
+            ctx.violation('torch create_ray_from_all_pairs (%d x %d points, %g separations away from the origin): direction cosines off unit length by %.3g, off the '
+                          'true directions by %.3g (the float32 coordinates allow about %.3g)' % (m_, n_, ratio, unit_err, dir_err, tol_u), rec,
+                          {'api': 'torch', 'fn': 'create_ray_from_all_pairs', 'what': 'far_from_origin'})
+        k_ = min(m_, n_)
+        r2 = LR.create_ray_from_two_points(ts[:k_], te[:k_]).double().numpy().reshape(-1, 2, 3)
+        w2 = (e64[:k_] - s64[:k_]) / np.linalg.norm(e64[:k_] - s64[:k_], axis=1, keepdims=True)
+        if float(np.max(np.abs(r2[:, 1] - w2))) > tol_u:
+            ctx.violation('torch create_ray_from_two_points (%d pairs, %g separations away from the origin): direction cosines off by %.3g (allowed %.3g)'
+                          % (k_, ratio, float(np.max(np.abs(r2[:, 1] - w2))), tol_u), rec, {'api': 'torch', 'fn': 'create_ray_from_two_points', 'what': 'far_from_origin'})
+        rn = np.asarray(NR.create_ray_from_two_points(starts[:k_], ends[:k_]), dtype=np.float64).reshape(-1, 2, 3)
+        wn = (ends[:k_] - starts[:k_]) / np.linalg.norm(ends[:k_] - starts[:k_], axis=1, keepdims=True)
+        if float(np.max(np.abs(rn[:, 1] - wn))) > 1e-9:
+            ctx.violation('numpy create_ray_from_two_points (%d pairs, %g separations away from the origin): direction cosines off by %.3g'
+                          % (k_, ratio, float(np.max(np.abs(rn[:, 1] - wn)))), rec, {'api': 'numpy', 'fn': 'create_ray_from_two_points', 'what': 'far_from_origin'})
     from .gensamplers import check_generated_samplers
     check_generated_samplers(ctx)          # the definitions regenerated from the source (Generated/Samplers.lean) vs the real functions
     from .genrays import check_generated_rays
